@@ -30,7 +30,7 @@ ASSUMPTIONS = [
 ]
 REQUIRED_COUNTERS = ["runs", "calls.concurrent", "overlapping_pairs", "yields_injected", "lines_seen",
                      "threads.2", "threads.4", "threads.8", "shape.shared_node", "shape.t.Object",
-                     "trees.parsed", "quiescence.tree_unchanged", "calls.accepted", "calls.rejected", "runs.cold_tree", "cold_process.calls", "format_runs.calls", "numeric_runs.calls", "default_runs.calls"]
+                     "trees.parsed", "quiescence.tree_unchanged", "calls.accepted", "calls.rejected", "runs.cold_tree", "cold_process.calls", "format_runs.calls", "numeric_runs.calls", "default_runs.calls", "size_runs.calls"]
 
 ANCHORS = [
     "statham.schema.property:_Property.bind",
@@ -347,6 +347,37 @@ def numeric_runs(ctx, sut, fpm, injector):
                     return
 
 
+def size_runs(ctx, sut, fpm, injector):
+    """Values of the sizes at which a library might switch to a guarded, chunked or timed code path (such
+    paths tend to rely on facilities only the main thread has: signals, contexts)."""
+    element = sut.Element(properties={
+        "text": sut.Property(sut.String(pattern="^a+$", minLength=1)),
+        "list": sut.Property(sut.Array(sut.Integer(), uniqueItems=True, maxItems=10 ** 6)),
+        "when": sut.Property(sut.String(format="date-time"))})
+    pool = [{"text": "a" * 5000}, {"text": "a" * 4096 + "b"}, {"list": list(range(60))}, {"list": list(range(59)) + [5]},
+            {"when": "2020-01-01T00:00:00Z" + " " * 2100}, {"text": "a", "list": [1]}]
+    lists = [[copy.deepcopy(pool[(tid + k) % len(pool)]) for k in range(4)] for tid in range(3)]
+    import warnings  # pylint: disable=import-outside-toplevel
+
+    with warnings.catch_warnings():
+        warnings.simplefilter("ignore")
+        base = [sequential(sut, fpm, element, lst) for lst in lists]
+        records, errors, stuck = concurrent(sut, fpm, element, lists, injector, 0.0)
+    if stuck or errors:
+        ctx.inconclusive_reason("size run: threads stuck or harness error " + str(errors[:1]))
+        return
+    ctx.count("size_runs")
+    for tid, recs in enumerate(records):
+        for pos, (_s, _e, outcome, fp) in enumerate(recs):
+            ctx.evaluation()
+            ctx.count("size_runs.calls")
+            want = base[tid][pos]
+            if outcome != want[0] or (outcome == "ok" and fp != want[1]):
+                ctx.witness("concurrent_differs_from_sequential", {"size_run": True, "value_keys": sorted(lists[tid][pos])},
+                            f"thread {tid} call {pos}: concurrent -> {outcome}; alone (main thread) -> {want[0]}")
+                return
+
+
 def default_runs(ctx, sut, fpm, injector):
     """Threads building objects that OMIT members whose schemas declare container defaults (the default is
     state of the shared tree: every thread must get its own converted copy, and the tree keeps the literal)."""
@@ -395,6 +426,7 @@ def run_shard(ctx):
         format_runs(ctx, sut, fpm, injector)
         numeric_runs(ctx, sut, fpm, injector)
         default_runs(ctx, sut, fpm, injector)
+        size_runs(ctx, sut, fpm, injector)
         for idx in range(ctx.params["runs"]):
             one_run(ctx, sut, fpm, monitors, injector, ctx.rng, idx)
     finally:
@@ -411,6 +443,10 @@ def replay(case, ctx):
     injector = monitors.YieldInjector(0.0, "replay")
     injector.start()
     try:
+        if case.get("size_run"):
+            for _ in range(5):
+                size_runs(ctx, sut, fpm, injector)
+            return
         if case.get("numeric_run") or case.get("format_run") or case.get("default_run"):
             # these scenarios use fixed elements and pools: run them again (several times)
             for _ in range(10):
